@@ -9,7 +9,7 @@ from .driver_soup import ALPHABET
 EXTRA_TOKENS = ['const', 'byte', 'bool', 'string', 'if', 'else', 'while', 'for', 'break', 'continue', 'stop',
                 'true', 'false', 'not', 'and', 'or', '-', '*', '/', '%', '<', '<=', '==', '!=', '-=', '*=',
                 'length', 'writeln', 'write', '!is_defeat', '@all_is_win', '0', '255', '256', '65536',
-                '"\\x00"', '"\\\\"', "'\\''", "'\\\\'", '0x', '1_', '@', '!', '"', "'", '\\', '#', '$', '/*']
+                'print', 'println', 'printf', '"\\x00"', '"\\\\"', "'\\''", "'\\\\'", '0x', '1_', '@', '!', '"', "'", '\\', '#', '$', '/*']
 
 
 # ---------------------------------------------------------------- corpus
@@ -224,6 +224,27 @@ def random_bytes(rng, count):
                 b[rng.randrange(len(b))] = rng.randrange(128, 256)
             b = bytes(b)
         out.append(('random_bytes#%d' % k, b))
+    return out
+
+
+def diagnostic_texts():
+    """calls that match no function, under names near and far from the builtins (the diagnostics carry hints that are
+    computed from the name), with literal / variable / array / no arguments"""
+    names = ['print', 'println', 'printf', 'print_all', 'printline', 'prints', 'print_', 'writes', 'write_all', 'writeln2',
+             'writel', 'puts', 'echo', 'len', 'length', 'main', 'exit', 'halt', 'defeat', 'is_defeat', 'truth_is_defeat',
+             'all_is_win', 'all_is_broken', 'sleep', 'debug', 'progress', 'is_you', 'f', 'Write', 'WRITELN']
+    out = []
+    for n in names:
+        for fl in ('', '!', '@'):
+            for k, args in enumerate(('', '"x"', '3', 'v', 'arr', '3, "x"', 'true', "'c'", '[1, 2]')):
+                body = 'int v = 1; int[] arr = [1, 2]; %s%s(%s);' % (fl, n, args)
+                if fl == '!':
+                    body = 'int v = 1; int[] arr = [1, 2]; try { !%s(%s); } undo { }' % (n, args)
+                out.append(('diag_%s%s_%d' % (fl, n, k), 'empty @is_you() { %s }' % body))
+        # a user function of that name exists, but not with these parameters
+        out.append(('diag_user_%s' % n, 'empty %s(const int[] a) { }\nempty @is_you() { %s(3); }' % (n, n)))
+        out.append(('diag_user2_%s' % n, 'int %s(int a, int b) { return a; }\nempty @is_you() { write(%s("s")); }' % (n, n)))
+        out.append(('diag_value_%s' % n, 'empty @is_you() { int q = %s(2) + 1; write(q); }' % n))
     return out
 
 
